@@ -198,8 +198,12 @@ fn hyphenate_impl(hyphenater: &Hyphenator, list: &[ds::Horizontal]) -> Vec<ds::H
                 // Consume the node whose characters have just been placed in s (or the normal kern).
                 i += 1;
             };
-        // The first char node that triggered the word search will have been put in s.
-        assert!(!s.is_empty());
+        // No letters were collected if the node that triggered the word search is a ligature
+        // that contains a non-letter after its first letter (TeX.2021.898 goes to done3 with hn=0,
+        // and TeX.2021.899 then gives up because hn<l_hyf+r_hyf).
+        if s.is_empty() {
+            continue;
+        }
 
         // Check if the word can be hyphenated based on the terminating node.
         // TeX.2021.899
